@@ -450,6 +450,10 @@ func TestVF_C18_KeyFileModes(t *testing.T) {
 	defer rec.Flush()
 	kp := vfk.K1024(0, 2, true)
 	states := []string{"absent", "regular-0644", "regular-0666", "regular-0600", "regular-0400", "symlink-to-0644-file", "dangling-symlink", "directory"}
+	// every other combination of group / other bits a pre-existing file can have
+	for _, m := range []int{0o640, 0o660, 0o620, 0o610, 0o604, 0o602, 0o601, 0o670, 0o607, 0o677, 0o777, 0o440, 0o404, 0o200} {
+		states = append(states, fmt.Sprintf("regular-%04o", m))
+	}
 	defer syscall.Umask(syscall.Umask(0o022))
 	for _, st := range states {
 		for _, um := range []int{0, 0o022, 0o027, 0o077} {
@@ -463,13 +467,16 @@ func TestVF_C18_KeyFileModes(t *testing.T) {
 				switch st {
 				case "absent":
 					existed = false
-				case "regular-0644", "regular-0666", "regular-0600", "regular-0400":
+				case "symlink-to-0644-file", "dangling-symlink", "directory":
+				default: // regular-<mode>
 					var mode os.FileMode
 					fmt.Sscanf(st, "regular-%o", &mode)
 					if err := os.WriteFile(path, old, mode); err != nil {
 						t.Fatal(err)
 					}
 					_ = os.Chmod(path, mode)
+				}
+				switch st {
 				case "symlink-to-0644-file":
 					if err := os.WriteFile(target, old, 0o644); err != nil {
 						t.Fatal(err)
